@@ -13,13 +13,13 @@ T = {
             'lark contextual lexer + LALR engine, CPython re are oracles (hypotheses H-tile/H-order checked per input)', 'Coq proof over PostLex/Builder model + oracle contracts checked per input'),
     'C02': ('Theorems about Store.v: a text update keeps the token sequence (identity, order) and every other token\'s text, for tokens in a store or free, all four cache branches of update(); lifted to assignment sequences. Document-level monitor: printed text = old text with that token span replaced.',
             'value codecs are C12\'s', 'Coq proof: frame theorem for set_text/update over the store invariant'),
-    'C03': ('Theorems about Repeated.v/Fields.v (transcriptions of RepeatedNodeWrapper._insert_tokens/_del_tokens/__setitem__/insert/pop/..., optional field create/remove): every operation rewrites one window, siblings keep their tokens, only separator-kind tokens adjacent to the child change; layout invariant preserved, lifted to histories.',
+    'C03': ('Theorems about Repeated.v/Fields.v (transcriptions of RepeatedNodeWrapper._insert_tokens/_del_tokens/__setitem__/insert/pop/..., optional field create/remove): every operation rewrites one window, siblings keep their tokens, only separator-kind tokens adjacent to the child change; layout invariant preserved, lifted to histories. Removal of an optional child follows the repaired code (both branches: separators dropped, or kept when the child was glued to its other neighbour) with the exact set of tokens that go; directed glued layouts in the monitor corpus.',
             'value-level routes are compositions validated by correspondence', 'Coq proof: frame + layout invariant over token-list model'),
     'C04': ('Theorems about Comments.v (claim/unclaim/shift as list surgery): every step permutes only zero-width placeholders, the subsequence of visible tokens is identical, hence printed text unchanged, for every call sequence; read-only API by snapshot monitor.',
             'getters are pure in the model; that the implementation\'s getters do not write is established by the snapshot monitor', 'Coq proof: permutation-of-placeholders invariant'),
-    'C05': ('Theorems over the generic tree model driven by descriptors re-extracted from models/generated on every run (GeneratedWf by vm_compute): the C05 statement as a predicate WF with a verified checker wf_b (sound), preserved by reattach, clone, construction (full: ConstructFull.v) and by the tree edits of TreeEdit.v at any path (through fields and into items of repeated fields): plugging a re-attached well-formed subtree, inserting an item with its separators (both placements of _insert_tokens), removing an item (both branches of _del_tokens), creating / removing the child of an optional field next to the pivot the extracted chain designates (left and right fields); pop() returns a self-contained well-formed tree; C05_history_all_slots: every sequence of such edits (required, optional, repeated slots) keeps HWF (hence WF); each edit kind is compared with real edits of the implementation on every run (TreeRun.check_ecase2 / check_ocase); counter-lemma: without reattach the result is not WF. wf_b is evaluated on every implementation state the run dumps (parsed, edited, popped, copied, constructed) and the WF statement is monitored after every edit of seeded/focused histories over the whole API.',
+    'C05': ('Theorems over the generic tree model driven by descriptors re-extracted from models/generated on every run (GeneratedWf by vm_compute): the C05 statement as a predicate WF with a verified checker wf_b (sound), preserved by reattach, clone, construction (full: ConstructFull.v) and by the tree edits of TreeEdit.v at any path (through fields and into items of repeated fields): plugging a re-attached well-formed subtree, inserting an item with its separators (both placements of _insert_tokens), removing an item (both branches of _del_tokens), creating / removing the child of an optional field next to the pivot the extracted chain designates (left and right fields); pop() returns a self-contained well-formed tree; C05_history_all_slots: every sequence of such edits (required, optional, repeated slots) keeps HWF (hence WF); each edit kind is compared with real edits of the implementation on every run (TreeRun.check_ecase2 / check_ocase); counter-lemma: without reattach the result is not WF. wf_b is evaluated on every implementation state the run dumps (parsed, edited, popped, copied, constructed) and the WF statement is monitored after every edit of seeded/focused histories over the whole API. remove_opt follows repo fix b46d2bd (separators kept when the child touches its other neighbour; TreeEditProofs6: regap keeps HWF). Health monitor (tree, cached views, positions) after every step.',
             'batch/slice forms are sequences of the single-item edits at tree level and are covered by the token-list theorems of C03 plus per-state validation by the verified checker; hand-written classes by correspondence only', 'translator (ast, fail-closed) + Coq proof over generic tree model (WF checker sound, compositional edits) + per-state validation + WF monitor'),
-    'C06': ('Partial: the re-parse statement needs the real lexer/parser (oracle) and is decided by the monitor (print, re-parse, compare content, value views and comment texts after every edit). Proved: separation of repeated-field items is preserved by every delete/insert/replace (RepeatedSep), tight fields demand nothing; the lexical half over the hand-written recognisers of all 16 terminals that Tokens.v models (TokensStable.v): a complete lexeme followed by text r is recognised with exactly the same extent whenever boundary_K r holds (weakest such condition for 8 terminals), every blank / line end / comma-blank is a boundary for every value kind, hence items printed with such gaps scan back into exactly the lexemes (C06_separated_relex; converse witnesses 1 ++ ,234 / #a ++ b / BBB ++ USD); formatted layouts enumerate declared fields in order; pivots are the scheme chains and are recomputed on every access (translator refuses a cached pivot).',
+    'C06': ('Partial: the re-parse statement needs the real lexer/parser (oracle) and is decided by the monitor (print, re-parse, compare content, value views and comment texts after every edit). Proved: separation of repeated-field items is preserved by every delete/insert/replace (RepeatedSep), tight fields demand nothing; the lexical half over the hand-written recognisers of all 16 terminals that Tokens.v models (TokensStable.v): a complete lexeme followed by text r is recognised with exactly the same extent whenever boundary_K r holds (weakest such condition for 8 terminals), every blank / line end / comma-blank is a boundary for every value kind, hence items printed with such gaps scan back into exactly the lexemes (C06_separated_relex; converse witnesses 1 ++ ,234 / #a ++ b / BBB ++ USD); formatted layouts enumerate declared fields in order; pivots are the scheme chains and are recomputed on every access (translator refuses a cached pivot). C06_remove_keeps_separation: removing an optional child that touches what lies on its other side keeps every separator between pivot and child (repo fix b46d2bd); directed glued texts with every optional child removed alone and cumulatively; stale-view and whole-field scenarios.',
             'lark (choice of terminal by the LALR state, the contextual lexer) is an oracle: the recognisers are compared with lark and CPython re on every run incl. lexeme+continuation texts; optional-field separators covered by C03 slot theorems + monitor', 'Coq proof of separation invariant + lexeme-extent stability + translator facts; re-parse monitor'),
     'C07': ('Theorems about Store.v, a statement-by-statement Gallina model of token_store.py (explicit handles, block indexes, caches, load factor a variable): invariant + refinement to a plain list for every operation and history and every load factor >= 2; observers equal list functions. Full-state correspondence after every step (LF 2..16), a plain-list monitor, and an exhaustive small-scope correspondence (store_exhaustive.py: every operation with every argument combination from every store of <= 4 tokens over a 3-text alphabet, LF 2 and 3, all sequences up to length 3 with states merged up to renaming - thorough tier: ~220k distinct steps compared inside Coq; a slice in the quick tier).',
             'contract of splice: inserted tokens are free or inside the removed range', 'Coq proof: invariant + refinement to list spec'),
@@ -27,15 +27,15 @@ T = {
             '"\\n" is the only line break (as _token_size counts); 0-based positions', 'Coq proof: position theorem over store invariant'),
     'C09': ('Theorems about Cost.v/Txn.v (branch-for-branch transcription of the CostSpec setters, unordered_node_property, payee/narration): refinement to the record-of-optionals spec from every normal concrete form, refusals atomic, for every assignment sequence; MetaValue.v (optional_meta_value_property, update_value, from_value, custom._update_raw with the type tests in source order): get(set v) = v for every value and slot content, in-place iff the kinds match, raw models stored as given, the one refusal. Correspondence + record-model monitor + generic get-after-set on every value property.',
             'component list operations and value codecs validated, not proved', 'Coq proof: refinement to record-of-optionals spec'),
-    'C10': ('Theorems about PySeq.v/Views.v: the _raw_indexes cache of every registered view equals the positions of matching elements after any interleaving of mutations through the raw list or any view (handle_splice bisect+shift lemma), and each view operation has Python-list semantics. PySeq validated exhaustively against CPython for small sizes each run.',
+    'C10': ('Theorems about PySeq.v/Views.v: the _raw_indexes cache of every registered view equals the positions of matching elements after any interleaving of mutations through the raw list or any view (handle_splice bisect+shift lemma), and each view operation has Python-list semantics. PySeq validated exhaustively against CPython for small sizes each run. WholeField.v (heap of instance dicts, wrappers with handler lists, Repeateds): after every history of reads, whole-field assignments, +=, wrapper copies and list edits through every handle ever obtained, every cached view is built on the cached wrapper of the held Repeated with exact indexes; as-found and seeded variants refuted by witness; compared step by step with the implementation (wholefield.py).',
             'PySeq is a model of CPython sequence semantics (finite sweep each run)', 'Coq proof: view invariant over all interleavings'),
-    'C11': ('Theorems about Tree.v clone (driven by extracted c_clone lists): the copy is equal, its leaves are the image of the original\'s under the fresh-token map (disjoint, complete), all nodes on the new store. Monitor: deep copies at every depth + edit independence both ways.',
+    'C11': ('Theorems about Tree.v clone (driven by extracted c_clone lists): the copy is equal, its leaves are the image of the original\'s under the fresh-token map (disjoint, complete), all nodes on the new store. Monitor: deep copies at every depth + edit independence both ways. Wrapper deep copies (WholeField.v): different wrappers never share a Repeated, an edit through one leaves the other untouched (empty lists included; the sharing variant refuted).',
             'token _clone methods by correspondence', 'translator + Coq proof over generic tree model + independence monitor'),
     'C12': ('Theorems about Tokens.v (exact transcriptions of _format_value/_parse_value and hand-written recognisers of the terminals): parse(format v) = v and the text is one lexeme, verbatim acceptance, coherence after assignment sequences. Regex texts pinned; codecs and recognisers compared with the implementation and the real lexer.',
             'CPython re / str primitives as modelled; decimal/date formatting validated', 'Coq proof: codec round-trips + recognisers'),
     'C13': ('Theorems about NumExpr.v (every constructor/dunder of number_expr.py; arithmetic carrier abstract): printed text re-parses to the same tree, value = evaluation, operator results and parenthesisation, operands untouched, chains by induction.',
             'decimal arithmetic is a Section variable; lark lexer oracle', 'Coq proof: parse/print/eval over expression trees'),
-    'C14': ('Theorems about Comments.v/CommentsOwn/CommentsRestore: ownership invariant (<= 1 owner, claimed flag coherent) preserved by all six claim/unclaim calls, auto-claim sequences and node-level assignment of comments, for every history; unclaim-claim restores (surrounding and interleaving: full, the latter under the position hypothesis claimable_b, refuted without it = known finding for appended entries); the interleaving claimer claims exactly the unclaimed comments of its range (CommentsRange/CommentsComplete: covers, frame, where the scan stops), hence no comment unowned after File.auto_claim_comments and idempotence of the File-level auto-claim without assuming everything claimed; single-claim rule declaratively (iff); the attribution rule over layouts (CommentsRule.v): attrib_spec, the first surrounding claim called while the comment is unclaimed and adjacent wins, the call order decides (leading over trailing because of the generated order, read off Generated.v by vm_compute), standalone fall-through into the first field whose range holds the comment, refuted for the one cross-field inversion (Transaction: postings before meta = known finding). Every theorem hypothesis is a boolean evaluated per trace of the implementation. Monitors: ownership tables, none unowned, parse(flag)=parse+claim, idempotence, restore, hand-over histories, rule from the line layout.',
+    'C14': ('Theorems about Comments.v/CommentsOwn/CommentsRestore: ownership invariant (<= 1 owner, claimed flag coherent) preserved by all six claim/unclaim calls, auto-claim sequences and node-level assignment of comments, for every history; unclaim-claim restores (surrounding and interleaving: full, the latter under the position hypothesis claimable_b, refuted without it = known finding for appended entries); the interleaving claimer claims exactly the unclaimed comments of its range (CommentsRange/CommentsComplete: covers, frame, where the scan stops), hence no comment unowned after File.auto_claim_comments and idempotence of the File-level auto-claim without assuming everything claimed; single-claim rule declaratively (iff); the attribution rule over layouts (CommentsRule.v): attrib_spec, the first surrounding claim called while the comment is unclaimed and adjacent wins, the call order decides (leading over trailing because of the generated order, read off Generated.v by vm_compute), standalone fall-through into the first field whose range holds the comment, refuted for the one cross-field inversion (Transaction: postings before meta = known finding). Every theorem hypothesis is a boolean evaluated per trace of the implementation. Monitors: ownership tables, none unowned, parse(flag)=parse+claim, idempotence, restore, hand-over histories, rule from the line layout. Placement (CommentsPlacement.v): claimed entries tight against the field, placeholder in front, kept by every claim/unclaim history; two same-owners-wrong-side rewrites refuted.',
             'that a comment is still unclaimed and adjacent / in range when its call comes is validated per trace (attrib_spec_b against the final owner), not proved', 'Coq proof: ownership invariant over histories + declarative claim rule'),
     'C15': ('Theorems about Construct.v (generic from_children over the extracted layouts): constructed node conforms, its kids are the arguments, token texts in layout order with the declared separators, WF and whole-store for every generated class and argument combination with both former run-level hypotheses discharged (ConstructFull.v: edges_ok per class by vm_compute, args_fresh = the condition under which the implementation does not refuse), hereditary well-formedness, constructed models are admissible donors (construct-insert-history closes the C05 loop); CustomValues.v (custom._disambiguate_values statement by statement): the disambiguated value list prints to tokens that split back into exactly those values (refuted without disambiguation: [1; -2]), values kept, idempotent, refusal atomic; layouts enumerate every declared field once in order (per-run, generated classes). Re-parse equality decided by the monitor over every class with from_value x optional-argument subsets, argument read-back, root comments, File assembly; the verified WF checker runs on every constructed model.',
             'lark is an oracle; two recorded findings for comments that end up adjacent', 'translator + Coq proof of generic construction; construct-print-reparse monitor'),
@@ -45,7 +45,7 @@ T = {
             'finding C17:both-sides:blanks-before-eol', 'Coq proof over token-list model'),
     'C18': ('Theorems about Indent.v (_get_indent/_get_default_indent, mapping and comment routes): new item takes siblings\' indent else parent indent ++ indent_by; raw nodes keep theirs; existing indents unchanged.',
             '', 'Coq proof over indent model'),
-    'C19': ('Theorems about Repeated.v/Fields.v in a statement-order-preserving model: every mutator that returns Err leaves document, items and donors unchanged, at every point of any history, including attached and duplicate donors; attached donors always refused (partial: refuted witness for a child spanning its free parent). Monitor: snapshot equality after every exception for every refusal kind named in the property (reuse, index/key, size mismatch, comments not found, illegal cost combination, unrepresentable raw text, arithmetic operand, foreign-store tokens).',
+    'C19': ('Theorems about Repeated.v/Fields.v in a statement-order-preserving model: every mutator that returns Err leaves document, items and donors unchanged, at every point of any history, including attached and duplicate donors; attached donors always refused (partial: refuted witness for a child spanning its free parent). Monitor: snapshot equality after every exception for every refusal kind named in the property (reuse, index/key, size mismatch, comments not found, illegal cost combination, unrepresentable raw text, arithmetic operand, foreign-store tokens). Whole-field assignment (WholeField.v): a refused assignment returns the heap unchanged, an attached donor is always refused; cache-first variant refuted. Probes: ancestor-into-descendant, mapping batches with repeated keys, extended-slice batches.',
             'D15 known finding; out-of-domain values out of contract', 'Coq proof: atomicity of refusals over histories'),
     'C20': ('Theorems about Tree.v node_eq driven by the extracted c_eq lists: symmetric, implies equal text and class, and for wf classes is exactly equality on every declared field (no forgotten field); GeneratedWf per run. Monitor: parse-twice, cross pairs vs structural dump, perturbations, hash consistency.',
             'placeholder layout after claim+unclaim: known finding', 'translator + Coq proof over generic tree model'),
